@@ -106,7 +106,9 @@ func (b *bitMask256) toTypes(reg *registry) []ID {
 	types := make([]ID, count)
 
 	totalIDs := reg.Count()
-	bins := totalIDs/wordSize + 1
+	// Number of words that contain registered IDs.
+	// With all 256 IDs registered, this must not exceed the number of words of the mask.
+	bins := (totalIDs + wordSize - 1) / wordSize
 	bits := totalIDs % wordSize
 
 	idx := 0
@@ -115,7 +117,7 @@ func (b *bitMask256) toTypes(reg *registry) []ID {
 			continue
 		}
 		cnt := wordSize
-		if i == bins-1 {
+		if i == bins-1 && bits != 0 {
 			cnt = bits
 		}
 		for j := range cnt {
